@@ -65,7 +65,7 @@ Example C13_nonvacuous :
   exists s, run (init 0)
     [DevEmit (t_reply ++ [13;10])%N None; RRead (t_reply ++ [13;10])%N; RLineStart t_reply; RLogAdd t_reply;
      RGetFlag false; RClrFlag; RDeliverA (StOK, Some (t_SYS, t_MODELNAME, [88]%N));
-     Enq 100 IKA; SDeq IKA; SSetFlag;
+     Enq 100 IKA; SDeq IKA; SCheckConn true; SSetFlag;
      DevEmit (t_reply ++ [13;10])%N None; RRead (t_reply ++ [13;10])%N; RLineStart t_reply; RLogAdd t_reply;
      RGetFlag true; RClrFlag] = Some s
   /\ g_fate s = [(t_reply, true); (t_reply, false)].
